@@ -3,7 +3,9 @@ package drive
 import (
 	"encoding/hex"
 	"fmt"
+	"github.com/btcsuite/btcutil/base58"
 	"math/rand"
+	"os"
 	"strings"
 
 	"verifharness/simpeer"
@@ -76,6 +78,8 @@ func (e *c14in) user(name string) *simpeer.User {
 		return wd.AdminU
 	case "feeSetter":
 		return wd.FeeSet
+	case "feeAddrSetter":
+		return wd.FeeASet
 	}
 	for _, u := range wd.Users {
 		if u.Name == name {
@@ -212,7 +216,16 @@ func (e *c14in) Exec(op string) string {
 		case "task":
 			var tasks []*fpb.Task
 			for _, s := range scripts {
-				tasks = append(tasks, &fpb.Task{Id: simpeer.NewTxID(), Method: "script", Args: e.c.Signed(wd.Users[0], "script", strings.ReplaceAll(s, "+", ";"))})
+				signer := wd.Users[0]
+				if s == "aclpanic" {
+					// an item whose *validation* panics: the access-control service answers this signer's
+					// key check with status OK and a response that carries no address
+					signer, s = wd.Users[3], "put:z:9"
+					r0 := wd.ACL.DefaultResponse([]string{signer.PubB58}, 0)
+					r0.Address = nil
+					wd.ACL.ByKeys[signer.PubB58] = &simpeer.ACLEntry{Mode: simpeer.ACLOk, Resp: r0}
+				}
+				tasks = append(tasks, &fpb.Task{Id: simpeer.NewTxID(), Method: "script", Args: e.c.Signed(signer, "script", strings.ReplaceAll(s, "+", ";"))})
 			}
 			data, _ := proto.Marshal(&fpb.ExecuteTasksRequest{Tasks: tasks})
 			r = e.c.Invoke(wd.Client.Creator, simpeer.NewTxID(), "executeTasks", string(data))
@@ -235,6 +248,9 @@ func (e *c14in) Exec(op string) string {
 			return e.reply("items", r)
 		}
 		if !r.OK() {
+			if os.Getenv("VERIF_DEBUG") != "" {
+				return "replied request-failed " + strings.ReplaceAll(r.Resp.Message, "\n", " ")
+			}
 			return "replied request-failed"
 		}
 		resp := &fpb.BatchResponse{}
@@ -336,8 +352,13 @@ func genC14(c *Cfg, emit func([]string)) {
 		cct := `{"id":"x","from":"VT","to":"CC","token":"VT","user":"AA==","amount":"AQ=="}`
 		return []string{string(task), string(task0), string(task1), string(batch), string(sw), string(task[:len(task)/2]), string(batch[:3]), cct, `{"id":"x"}`}
 	}()
+	// checksum-valid base58check strings whose payload is not an address: empty, 3, 31 and 33 bytes
+	shortAddrs := []string{base58.CheckEncode([]byte{}, 0), base58.CheckEncode([]byte{1, 2, 3}, 0),
+		base58.CheckEncode(make([]byte, 31), 0), base58.CheckEncode(make([]byte, 33), 0), base58.CheckEncode(make([]byte, 32), 7)}
 	values := func() string {
-		switch rng.Intn(14) {
+		switch rng.Intn(16) {
+		case 14, 15:
+			return shortAddrs[rng.Intn(len(shortAddrs))]
 		case 0:
 			return ""
 		case 1:
@@ -448,6 +469,20 @@ func genC14(c *Cfg, emit func([]string)) {
 			emit(h)
 		}
 	}
+	// (2') address parameters given checksum-valid base58check strings whose payload is no address, in
+	// correctly shaped signed requests on both routes
+	{
+		h := []string{"reset"}
+		for _, sa := range shortAddrs {
+			for _, route := range []string{"direct", "task"} {
+				h = append(h, fmt.Sprintf("signed %s ok emit issuer %s %s", route, hx(sa), hx("1")),
+					fmt.Sprintf("signed %s ok transfer u0 %s %s %s", route, hx(sa), hx("1"), hx("ref")),
+					fmt.Sprintf("signed %s ok setFeeAddress feeAddrSetter %s", route, hx(sa)),
+					fmt.Sprintf("signed %s ok balanceOf u0 %s", route, hx(sa)))
+			}
+		}
+		emit(h)
+	}
 	// (3) Init with every argument count and content class, every creator
 	{
 		h := []string{"reset"}
@@ -478,7 +513,11 @@ func genC14(c *Cfg, emit func([]string)) {
 			for j := 0; j < n; j++ {
 				ss = append(ss, pick(scripts))
 			}
-			h = append(h, "items "+pick([]string{"batch", "task"})+" "+strings.Join(ss, " "))
+			route := pick([]string{"batch", "task"})
+			if route == "task" && rng.Intn(3) == 0 {
+				ss[rng.Intn(len(ss))] = "aclpanic" // an item that panics while it is being validated
+			}
+			h = append(h, "items "+route+" "+strings.Join(ss, " "))
 			if len(h) > 12 {
 				emit(h)
 				h = []string{"reset"}
@@ -527,7 +566,7 @@ func genC14(c *Cfg, emit func([]string)) {
 		}
 		emit(h)
 	}
-	c.Rule = "every entry point (55 function names incl. unknown and empty) x argument counts 0..8 x 8 creator kinds x 10 access-control behaviours with values from {empty, small and huge numbers, negative, address, names, non-UTF-8, 5 kB, JSON, whole and truncated protobufs, random bytes}; correctly signed requests with arbitrary method arguments on the direct/batched and task routes; Init with 0..7 arguments and malformed JSON configurations; batches and task lists of scripted items that succeed, fail and panic; malformed swap / multi-swap / key sections; the chaincode runs in a child process whose death or silence is observed by the parent and confirmed by re-running the history alone. non-trivial = any history beyond the reset; distinct = sha256"
+	c.Rule = "every entry point (55 function names incl. unknown and empty) x argument counts 0..8 x 8 creator kinds x 10 access-control behaviours with values from {empty, small and huge numbers, negative, address, checksum-valid base58check strings with payloads of 0, 3, 31, 33 bytes, names, non-UTF-8, 5 kB, JSON, whole and truncated protobufs, random bytes}; correctly signed requests with arbitrary method arguments on the direct/batched and task routes; Init with 0..7 arguments and malformed JSON configurations; batches and task lists of scripted items that succeed, fail and panic (in their body, or - task lists - while being validated: an access-control answer without an address); malformed swap / multi-swap / key sections; the chaincode runs in a child process whose death or silence is observed by the parent and confirmed by re-running the history alone. non-trivial = any history beyond the reset; distinct = sha256"
 	c.Extra = map[string]any{"reply_classes": ChildStats()}
 	_ = rand.Int
 }
